@@ -339,6 +339,10 @@ def check_mutators(ctx):
                     if in_parser:
                         inside += 1
                         continue
+                    if G.fresh_tree_local(prog, f, mc[0], classes):
+                        # a tree this function has just constructed over
+                        # a new list
+                        continue
                     outside += 1
                     ctx.ob('C12.MUTATORS', False, ctx.where(f.module, n),
                            f.qual, U(n)[:100],
@@ -384,7 +388,8 @@ def check_fresh_or(ctx):
     for p in t.paths:
         if p.outcome.kind != 'return' or p.outcome.expr is None:
             continue
-        v = t.expand(p.outcome.expr)
+        v = G.fold_builders(prog, t.module_of(p.outcome.frame),
+                            t.expand(p.outcome.expr), classes)
         if not isinstance(v, ast.Call):
             continue
         key = (p.outcome.line, U(v))
